@@ -1,13 +1,15 @@
-"""C13 – in a model specification every id denotes exactly one shared object.
+"""C13 - in a model specification every id denotes exactly one shared object.
 
 Bounded-exhaustive exploration of a *language*: every specification derivable from a small
 grammar over {Parameter, ViewParameter, TransformedParameter, CatParameter, Distribution,
-JointDistributionModel} up to a size bound, every child slot filled in every way (inline
-definition or reference) and every assignment of ids (up to renaming) – which produces
+JointDistributionModel, Taxon, Taxa} up to a size bound, every child slot filled in every way
+(inline definition or reference) and every assignment of ids (up to renaming) - which produces
 duplicate ids at every depth, backward / forward / cyclic / dangling references and all
-well-formed sharing patterns.  Each specification is loaded exactly as `torchtree.main`
-does (remove_comments, expand_plates, process_objects per element) and compared with the
-reference interpreter `mc/oracle/spec_interp.py`:
+well-formed sharing patterns.  Taxon / Taxa are included because they are container-like
+registered classes (UserDict / UserList: an attribute-less Taxon and an empty Taxa are falsy).
+Each specification is loaded exactly as `torchtree.main` does (remove_comments, expand_plates,
+process_objects per element) and compared with the reference interpreter
+`mc/oracle/spec_interp.py`:
 
 * ill-formed (duplicate id anywhere, reference not defined before use) => JSONParseError;
   acceptance or any other exception type is a violation;
@@ -16,12 +18,13 @@ reference interpreter `mc/oracle/spec_interp.py`:
   all objects equal the numpy evaluation; an update of a base Parameter made through
   every holder of it (and through the registry) is observed by every object's value.
 
-Every well-formed specification is then decorated in every single position with comment
-keys, ignored objects, `ignore: false`, alternative type names, has every list element
-marked ignored, and is wrapped once in a plate (var / star forms, several ranges, root or
-all ids templated); the expectation is computed by the oracle's own comment removal and
-plate expansion.  Finally every `json_factory` helper x argument menu is loaded and
-compared with directly constructed objects."""
+Every well-formed specification (up to a smaller bound) is then decorated in every single
+position with comment keys, ignored objects, `ignore: false`, alternative type names, has
+every list element marked ignored, gets every pair of list-level decorations, and is wrapped
+once in a plate (var / star forms, several ranges, root or all ids templated); the expectation
+is computed by the oracle's own comment removal and plate expansion.  Finally every
+`json_factory` helper x argument menu is loaded and compared with directly constructed
+objects (mc/props/c13_factories.py)."""
 import copy
 import hashlib
 import itertools
@@ -31,7 +34,7 @@ import numpy as np
 
 from mc.env import tt
 from mc.oracle import spec_interp as si
-from mc.runner import chunked, jdump, pmap
+from mc.runner import jdump, pmap
 
 LEVEL = "exploration"
 TOL = 1e-9
@@ -45,6 +48,10 @@ KINDS = {
     "C": ("CatParameter", "p", [("p",), ("p", "p")]),
     "D": ("Distribution", "m", [("p", "p")]),
     "J": ("JointDistributionModel", "m", [("m",), ("m", "m")]),
+    # container-like classes: a Taxon without attributes and an empty Taxa are falsy objects
+    "X": ("Taxon", "t", [()]),
+    "Y": ("Taxon", "t", [()]),
+    "A": ("Taxa", "a", [(), ("t",), ("t", "t")]),
 }
 
 
@@ -167,6 +174,12 @@ def build(skel, labels, off):
         if kind == "D":
             return {"id": id_, "type": "Distribution", "distribution": "torch.distributions.Normal",
                     "x": vals[0], "parameters": {"loc": vals[1], "scale": 1.5}}
+        if kind == "X":
+            return {"id": id_, "type": "Taxon"}
+        if kind == "Y":
+            return {"id": id_, "type": "Taxon", "attributes": {"date": round(1.5 + k + off, 6)}}
+        if kind == "A":
+            return {"id": id_, "type": "Taxa", "taxa": vals}
         return {"id": id_, "type": "JointDistributionModel", "distributions": vals}
 
     return [obj(t) for t in skel]
@@ -190,6 +203,8 @@ def child_of(holder, tname, slot, idx):
         return ps[idx] if idx < len(ps) else None
     if tname == "Distribution":
         return holder.x if slot == "x" else holder.dict_parameters.get("loc")
+    if tname == "Taxa":
+        return holder.data[idx] if idx < len(holder.data) else None
     ms = list(holder._distributions._models.values())
     return ms[idx] if idx < len(ms) else None
 
@@ -199,6 +214,8 @@ def n_children(holder, tname):
         return len(list(holder._parameter_container.params()))
     if tname == "JointDistributionModel":
         return len(holder._distributions._models) + len(holder._distributions._parameters)
+    if tname == "Taxa":
+        return len(holder.data)
     return None
 
 
@@ -218,6 +235,11 @@ def compare_values(dic, ids, ref):
         want = ref[i]
         o = dic[i]
         try:
+            if tname in ("Taxon", "Taxa"):
+                got = dict(o.data) if tname == "Taxon" else [getattr(t, "id", None) for t in o.data]
+                if got != want:
+                    return f"`{i}' ({tname}) holds {got}, expected {want}"
+                continue
             if si.SCHEMA[tname]["cat"] == "p":
                 got = o.tensor.detach().numpy()
             else:
@@ -245,6 +267,8 @@ def _check_spec(spec, pre):
     ref_spec = si.preprocess(spec) if pre else spec
     exp = si.interpret(ref_spec)
     if not exp["typed"]:
+        if not pre:
+            raise RuntimeError("pre-filter let an untyped document through")
         return "untyped", [], ""
     try:
         dic = tt.load(spec)
@@ -333,7 +357,7 @@ def walk(spec):
             v = o
             for k in keypath:
                 v = v[k]
-            if arity == "list":
+            if arity in ("list", "list0"):
                 lists.append((v, cat))
                 for i, e in enumerate(v):
                     if isinstance(e, dict):
@@ -354,6 +378,9 @@ def _junk(id_, ignore=True):
 
 
 def _junk_tree(cat, first):
+    if cat == "t":
+        return {"id": "zz", "type": "Taxa", "taxa": [{"id": first, "type": "Taxon"}, "nowhere"],
+                "ignore": True}
     if cat == "p":
         return {"id": "zz", "type": "CatParameter",
                 "parameters": [_junk(first, False), "nowhere"], "ignore": True}
@@ -390,22 +417,59 @@ def decorations(spec):
         if tname == "Distribution":
             yield f"comment_in_parameters@{n}", at(
                 lambda o: o["parameters"].__setitem__("_loc", _junk(first, False))), True
-    nlists = len(walk(spec)[1])
-    for li in range(nlists):
-        length = len(walk(spec)[1][li][0])
-        cat = walk(spec)[1][li][1]
-        for pos in range(length + 1):
-            for tag, junk in (("dupid", _junk(first)), ("fresh", _junk("zz")),
-                              ("tree", _junk_tree(cat or "m", first))):
-                s = copy.deepcopy(spec)
-                walk(s)[1][li][0].insert(pos, junk)
-                yield f"ins_ignored_{tag}@{li}.{pos}", s, True
-    for n in range(nobj):
-        o, plist, idx = walk(spec)[0][n]
-        if plist is not None and len(plist) >= 2:
-            s = copy.deepcopy(spec)
-            walk(s)[0][n][0]["ignore"] = True
-            yield f"mark_ignored@{n}", s, False
+    for op in list_ops(spec):
+        yield _op_tag(op), apply_ops(spec, [op]), op[0] == "ins"
+
+
+def list_ops(spec):
+    """list-level decorations: insert an ignored object (three kinds) at every position of
+    every list; mark every inline list element as ignored"""
+    objs, lists = walk(spec)
+    ops = []
+    for li, (lst, _) in enumerate(lists):
+        for pos in range(len(lst) + 1):
+            for kind in ("dupid", "fresh", "tree"):
+                ops.append(("ins", li, pos, kind))
+    for n, (_, plist, _) in enumerate(objs):
+        if plist is not None:
+            ops.append(("mark", n))
+    return ops
+
+
+def _op_tag(op):
+    return f"ins_ignored_{op[3]}@{op[1]}.{op[2]}" if op[0] == "ins" else f"mark_ignored@{op[1]}"
+
+
+def apply_ops(spec, ops):
+    """apply list-level decorations (positions refer to the undecorated document; several
+    insertions at one position appear in the order given)"""
+    s = copy.deepcopy(spec)
+    objs, lists = walk(s)  # handles resolved before anything is changed
+    first = spec[0]["id"]
+    for op in ops:
+        if op[0] == "mark":
+            objs[op[1]][0]["ignore"] = True
+    ins = [op for op in ops if op[0] == "ins"]
+    for op in reversed(sorted(ins, key=lambda o: (o[1], o[2]))):
+        _, li, pos, kind = op
+        lst, cat = lists[li]
+        junk = {"dupid": _junk(first), "fresh": _junk("zz")}.get(kind) or _junk_tree(cat or "m", first)
+        lst.insert(pos, junk)
+    return s
+
+
+def decoration_pairs(spec):
+    """every unordered pair of list-level decorations (two insertions at one position in
+    both orders; the same insertion twice = two adjacent ignored objects)"""
+    ops = list_ops(spec)
+    for i, a in enumerate(ops):
+        for b in ops[i:]:
+            if a == b and a[0] == "mark":
+                continue
+            neutral = a[0] == "ins" and b[0] == "ins"
+            yield _op_tag(a) + "+" + _op_tag(b), apply_ops(spec, [a, b]), neutral
+            if a != b and neutral and a[1:3] == b[1:3]:
+                yield _op_tag(b) + "+" + _op_tag(a), apply_ops(spec, [b, a]), neutral
 
 
 PLATE_RANGES = ["0:1", "0:2", "1:3", "0:4:2", "0:0"]
@@ -419,7 +483,7 @@ def _rename_refs(x, mapping):
             for k in keypath[:-1]:
                 holder = holder[k]
             v = holder[keypath[-1]]
-            if arity == "list":
+            if arity in ("list", "list0"):
                 for i, e in enumerate(v):
                     if isinstance(e, str):
                         v[i] = mapping.get(e, e)
@@ -483,10 +547,19 @@ class Tally:
             k = jdump(sig)
             ent = self.viol.setdefault(k, [0, []])
             ent[0] += 1
-            if len(ent[1]) < 2:
+            size = len(json.dumps(spec))
+            if len(ent[1]) < 2 or size < ent[1][-1]["size"]:
                 ent[1].append({"case": {"part": part, "tag": tag, "spec": spec},
                                "detail": f"{part} {tag}: {detail}; spec={json.dumps(spec)}",
-                               "sig": sig})
+                               "sig": sig, "size": size})
+                ent[1].sort(key=lambda v: v["size"])
+                del ent[1][2:]
+
+    def sample(self, key, spec):
+        """keep the largest document seen per kind as the evidence sample"""
+        cur = self.samples.get(key)
+        if cur is None or len(json.dumps(spec)) > len(json.dumps(cur)):
+            self.samples[key] = spec
 
     def pack(self):
         return {"counts": self.counts, "viol": self.viol, "nhash": len(self.hashes),
@@ -497,36 +570,90 @@ def spec_hash(spec):
     return hashlib.blake2b(jdump(spec).encode(), digest_size=8).digest()
 
 
+def roles(skel):
+    """label positions in document order: ('def' | 'ref', category)"""
+    out = []
+
+    def rec(t):
+        kind, fl = t
+        _, cat, arities = KINDS[kind]
+        slots = [a for a in arities if len(a) == len(fl)][0]
+        out.append(("def", cat))
+        for f, c in zip(fl, slots):
+            if f == "R":
+                out.append(("ref", c))
+            else:
+                rec(f)
+
+    for t in skel:
+        rec(t)
+    return out
+
+
 def do_lang(skel, opts, tally):
     nobj = sum(n_objects(t) for t in skel)
     npos = nobj + sum(n_refs(t) for t in skel)
     kmax = nobj + 1
     expected = n_rgs(npos, kmax)
     seen = 0
+    rl = roles(skel)
+    defs = [(i, c) for i, (r, c) in enumerate(rl) if r == "def"]
+    refs = [(i, c) for i, (r, c) in enumerate(rl) if r == "ref"]
+    selfcheck = 0
+    prev = None
     for labels in rgs(npos, kmax):
         seen += 1
+        if prev is not None and not labels > prev:
+            raise RuntimeError("labellings are not strictly increasing (distinctness)")
+        prev = labels
+        # documents in which a reference names an object of the wrong category are outside
+        # the language (same rule as the interpreter's `typed`, decided here without building)
+        if refs:
+            dcat = {}
+            for i, c in defs:
+                dcat.setdefault(labels[i], set()).add(c)
+            untyped = False
+            for i, c in refs:
+                d = dcat.get(labels[i])
+                if d and d != {c}:
+                    untyped = True
+                    break
+            if untyped:
+                tally.count("lang")
+                tally.count("lang_untyped")
+                selfcheck += 1
+                if selfcheck % 997 == 1 and si.interpret(build(skel, labels, opts["off"]))["typed"]:
+                    raise RuntimeError("pre-filter and interpreter disagree on typedness")
+                continue
         spec = build(skel, labels, opts["off"])
         cat, viols, errs = check_spec(spec, "lang", pre=False)
         tally.count("lang_" + cat)
         tally.count("lang")
         if cat == "error":
             tally.count("lang_error:" + errs)
-        if npos > 1 and cat != "untyped":
-            tally.hashes.add(spec_hash(spec))
+        if npos > 1:
+            tally.count("lang_distinct")
         if viols:
             tally.record("lang", f"{nobj} objects", spec, viols)
         if cat == "ok":
-            tally.samples.setdefault("wellformed", spec)
+            tally.sample("wellformed", spec)
             if nobj <= opts["decor_max"]:
-                do_decor(spec, tally)
+                do_decor(spec, tally, pairs=nobj <= opts["pair_max"])
         elif cat == "error":
-            tally.samples.setdefault("illformed", spec)
+            tally.sample("illformed_" + errs.split("+")[0], spec) if "+" not in errs else None
     if seen != expected:
         raise RuntimeError(f"labelling enumeration truncated: {seen} != {expected}")
 
 
-def do_decor(spec, tally):
-    for tag, s, same in decorations(spec):
+def deco_name(tag):
+    return "+".join(t.split("@")[0] for t in tag.split("+"))
+
+
+def do_decor(spec, tally, pairs=False):
+    todo = decorations(spec)
+    if pairs:
+        todo = itertools.chain(todo, decoration_pairs(spec))
+    for tag, s, same in todo:
         if same and si.strip_comments(s) != spec:
             raise RuntimeError(f"decoration {tag} is not neutral under the oracle: {s}")
         try:
@@ -538,9 +665,10 @@ def do_decor(spec, tally):
         tally.count("decor_" + cat)
         tally.hashes.add(spec_hash(s))
         if viols:
-            tally.record("decor", tag, s, [(c, d, dict(e, decoration=tag.split("@")[0]))
+            tally.record("decor", tag, s, [(c, d, dict(e, decoration=deco_name(tag)))
                                            for c, d, e in viols])
-        tally.samples.setdefault("decor", s)
+        if cat == "ok":
+            tally.sample("decor", s)
     for tag, s in plates(spec):
         try:
             cat, viols, _ = check_spec(s, "plate")
@@ -554,7 +682,7 @@ def do_decor(spec, tally):
             form = tag.split("@")[0]
             tally.record("plate", tag, s, [(c, d, dict(e, decoration=form)) for c, d, e in viols])
         if cat == "ok":
-            tally.samples.setdefault("plate", s)
+            tally.sample("plate", s)
 
 
 def _work(chunk):
@@ -574,8 +702,8 @@ def _work(chunk):
 
 def bounds(tier):
     if tier == "thorough":
-        return {"max_objects": 4, "max_refs_at_max": None, "decor_max": 4}
-    return {"max_objects": 4, "max_refs_at_max": 2, "decor_max": 3}
+        return {"max_objects": 4, "max_refs_at_max": 5, "decor_max": 4, "pair_max": 3}
+    return {"max_objects": 4, "max_refs_at_max": 2, "decor_max": 3, "pair_max": 2}
 
 
 def run(run):
@@ -584,7 +712,7 @@ def run(run):
     b = bounds(run.tier)
     off = seed_offset(run.seed)
     skels = skeleton_specs(b["max_objects"], b["max_refs_at_max"])
-    opts = {"off": off, "decor_max": b["decor_max"]}
+    opts = {"off": off, "decor_max": b["decor_max"], "pair_max": b["pair_max"]}
     # closed-form size of the labelled space
     size = 0
     weights = []
@@ -604,6 +732,8 @@ def run(run):
     for j, it in enumerate(fitems):
         chunks[j % nchunks].append(("factory", it, opts))
     chunks = [c for c in chunks if c]
+    if len({repr(s) for s in skels}) != len(skels):
+        raise RuntimeError("duplicate skeletons")
     res = pmap(_work, chunks)
 
     counts, viol, nhash, samples = {}, {}, 0, {}
@@ -616,7 +746,8 @@ def run(run):
             ent[1].extend(cases)
         nhash += r["nhash"]
         for k, v in r["samples"].items():
-            samples.setdefault(k, v)
+            if k not in samples or len(jdump(v)) > len(jdump(samples[k])):
+                samples[k] = v
     if counts.get("lang", 0) != size:
         raise RuntimeError(f"language enumeration incomplete: {counts.get('lang')} of {size}")
     if counts.get("factory", 0) != len(fitems):
@@ -624,25 +755,40 @@ def run(run):
     if not counts.get("lang_ok") or not counts.get("lang_error"):
         raise RuntimeError("vacuous run: no well-formed or no ill-formed specification")
     # smallest case first per signature
-    for k in sorted(viol):
+    firsts = []
+    for k in viol:
         n, cases = viol[k]
         cases.sort(key=lambda v: len(jdump(v["case"]["spec"])))
         v = cases[0]
+        v.pop("size", None)
         v["detail"] += f" [{n} cases with this signature]"
+        firsts.append(v)
+    parts = ["lang", "decor", "plate", "factory"]
+    firsts.sort(key=lambda v: (parts.index(v["sig"]["part"]), len(jdump(v["case"]["spec"])),
+                               jdump(v["sig"])))
+    for v in firsts:
         run.violation(v["case"], v["detail"], v["sig"])
     evaluations = sum(counts.get(k, 0) for k in ("lang_ok", "lang_error", "decor", "plate", "factory"))
     cov = {
         "evaluations": evaluations,
-        "distinct_nontrivial": nhash + counts.get("factory_distinct", 0),
+        "distinct_nontrivial": counts.get("lang_distinct", 0) + nhash + counts.get("factory_distinct", 0),
         "rule": "every top-level list of <= 2 skeletons over {Parameter, ViewParameter(parameter), "
                 "TransformedParameter(x), CatParameter(parameters[1..2]), Distribution(x, loc), "
-                "JointDistributionModel(distributions[1..2])} with <= max_objects objects, every "
-                "slot inline or reference, every id assignment up to renaming (restricted growth "
-                "strings over objects+1 ids); every well-formed one with <= decor_max objects x "
-                "every single decoration and every single plate wrapping; every json_factory x "
-                "argument menu.  distinct = distinct canonical JSON documents (hashes counted); "
-                "non-trivial = at least one slot (a lone Parameter list is excluded)",
-        "samples": [samples[k] for k in sorted(samples)][:8],
+                "JointDistributionModel(distributions[1..2]), Taxon (with / without attributes), "
+                "Taxa(taxa[0..2])} with <= max_objects objects (documents with exactly max_objects "
+                "objects: <= max_refs_at_max reference slots), every slot inline or reference, every "
+                "id assignment up to renaming (restricted growth strings over objects+1 ids); every "
+                "well-formed one with <= decor_max objects x every single decoration (comment keys "
+                "with string / object / list values, ignored dict value, ignore:false, type-name "
+                "aliases, ignored objects of three kinds inserted at every list position, every list "
+                "element marked ignored) and every single plate wrapping (var|star x root|all ids x "
+                "5 ranges); every pair of list-level decorations for <= pair_max objects; every "
+                "json_factory x argument menu.  distinct_nontrivial counts judged documents only "
+                "(untyped ones excluded): language documents are distinct by construction (distinct "
+                "skeletons, strictly increasing labellings - both asserted) and non-trivial when they "
+                "have at least one slot or two objects; decorated documents are counted by distinct "
+                "hashes of their canonical JSON; factory entries by distinct (factory, form)",
+        "samples": [{"kind": k, "document": samples[k]} for k in sorted(samples)][:12],
         "exhaustive": True,
         "bounds": b,
         "skeletons": len(skels),
@@ -661,7 +807,14 @@ def run(run):
         "list them, which is the order the classes read them (x before parameters)",
         "documents in which a reference names an object of the wrong category for its slot "
         "(parameter vs model) are outside the language and not judged (counted as untyped)",
-        "plates: one plate per document; range references such as `a.{0:2}' are not explored",
+        "plates: one plate per document (two plates, a plate after an empty-range plate and a "
+        "plate nested in a plate's object are outside the bound); range references such as "
+        "`a.{0:2}' are not explored",
+        "holders are observed through ViewParameter.parameter, TransformedParameter.x, "
+        "CatParameter._parameter_container, Distribution.x/.dict_parameters, "
+        "JointDistributionModel._distributions, Taxa.data",
+        "json_factory menu: argument forms announced by the factory signature or the from_json "
+        "documentation; an entry is judged only if the directly constructed twin evaluates",
         "updates are made on base Parameters (p.tensor = v) through every holder",
         f"values compared at abs/rel {TOL} (observed differences <= 1e-15)",
     ])
@@ -678,7 +831,7 @@ def replay(case):
         return [c for _, (_, cases) in tally.viol.items() for c in cases]
     cat, viols, _ = check_spec(case["spec"], part)
     out = []
-    deco = case.get("tag", "").split("@")[0]
+    deco = deco_name(case.get("tag", "")) if part == "decor" else case.get("tag", "").split("@")[0]
     for check, detail, extra in viols:
         sig = {"check": check, "part": part}
         sig.update(extra)
